@@ -30,11 +30,21 @@ def network(code):
 _NETCODES = []
 
 
+FALLBACK_CODES = ["BTC", "DOGE", "LTC", "XTN"]
+_REGISTRY_ERROR = []
+
+
 def netcodes():
+    """all registered network symbols; if pycoin's registry itself fails, a short fixed list (the per-network cases
+    then report the failure as disagreements instead of stopping the harness)"""
     if not _NETCODES:
-        from pycoin.networks.registry import network_codes
-        with contextlib.redirect_stdout(io.StringIO()):
-            _NETCODES.extend(sorted(network_codes()))
+        try:
+            from pycoin.networks.registry import network_codes
+            with contextlib.redirect_stdout(io.StringIO()):
+                _NETCODES.extend(sorted(network_codes()))
+        except Exception as e:
+            _NETCODES.extend(FALLBACK_CODES)
+            _REGISTRY_ERROR.append("EXC %s: %s" % (type(e).__name__, e))
     return _NETCODES
 
 
@@ -137,6 +147,9 @@ class Roundtrip(Driver):
 
     def execute(self, unit):
         sg = signers(self.seed)[unit["signer"]]
+        if _REGISTRY_ERROR and unit["net"] == netcodes()[0] and unit["signer"] == 0:
+            yield dict(net=unit["net"], registry=True), BAD("network-registry", "network_codes() lists the networks", _REGISTRY_ERROR[0],
+                                                            clause="network-registry")
         try:
             net = network(unit["net"])
             grs = type(net.parse).__name__ != "ParseAPI"
@@ -151,6 +164,11 @@ class Roundtrip(Driver):
                 yield case, self.run(case)
 
     def run(self, case):
+        if case.get("registry"):
+            netcodes()
+            if _REGISTRY_ERROR:
+                return BAD("network-registry", "network_codes() lists the networks", _REGISTRY_ERROR[0], clause="network-registry")
+            return OK("trivial-registry-ok")
         d = int(case["signer"]["secret"])
         comp = bool(case["signer"]["compressed"])
         text = msg_text(case["msg"])
